@@ -564,6 +564,8 @@ type listRoutine struct {
 	param *ssa.Parameter
 	call  *ssa.Call
 	arg   ssa.Value
+	// chain: the calls from the command down to fn (chain[0] == call)
+	chain []*ssa.Call
 }
 
 // outputRoutines finds the helpers of package cli called from run with a
@@ -581,7 +583,37 @@ func outputRoutines(c *Ctx, run *ssa.Function) []listRoutine {
 		}
 		for i, a := range call.Common().Args {
 			if srSlice(a.Type()) && i < len(h.Params) {
-				out = append(out, listRoutine{h, h.Params[i], call, a})
+				top := listRoutine{fn: h, param: h.Params[i], call: call, arg: a, chain: []*ssa.Call{call}}
+				out = append(out, top)
+				out = append(out, nestedRoutines(top, 0)...)
+			}
+		}
+	})
+	return out
+}
+
+// nestedRoutines: routines of package cli that rt hands its own list on to
+// (a dispatcher choosing the output format). They keep rt's call in the
+// command as their anchor there and record the chain of calls leading down.
+func nestedRoutines(rt listRoutine, d int) []listRoutine {
+	if d > 2 {
+		return nil
+	}
+	var out []listRoutine
+	ssau.ForEachInstr(rt.fn, false, func(in ssa.Instruction) {
+		call, ok := in.(*ssa.Call)
+		if !ok {
+			return
+		}
+		h := call.Common().StaticCallee()
+		if h == nil || len(h.Blocks) == 0 || h.Pkg != rt.fn.Pkg || h == rt.fn {
+			return
+		}
+		for i, a := range call.Common().Args {
+			if i < len(h.Params) && (a == ssa.Value(rt.param) || ssau.ParamOf(a) == rt.param) {
+				sub := listRoutine{fn: h, param: h.Params[i], call: rt.call, arg: rt.arg, chain: append(append([]*ssa.Call(nil), rt.chain...), call)}
+				out = append(out, sub)
+				out = append(out, nestedRoutines(sub, d+1)...)
 			}
 		}
 	})
